@@ -484,6 +484,64 @@ pub fn run(tier: &str) -> i32 {
         all.merge(n);
     }
 
+    // ---- family (k): a parser object whose (caller-supplied) validator panicked during an earlier parse - the
+    //      caller caught that - is used again: the library must answer Ok or Err, whatever the earlier unwinding
+    //      left behind
+    {
+        use crate::adapter::{PEvent, POp, Verdict};
+        let units: Vec<(Proto, Layer, bool)> = Proto::ALL.iter().flat_map(|p| [(Layer::Generic, false), (Layer::Prelude, false), (Layer::Prelude, true)].into_iter().map(move |(l, d)| (*p, l, d))).collect();
+        let accs = par_units(&units, |(p, l, default)| {
+            let mut acc = Acc::default();
+            let key = domains::key_pool(*p)[0].clone();
+            let seed = if p.is_local() { domains::seeds(*p)[2].clone() } else { vec![] };
+            let Out::Ok(tok) = adapter::core_issue(*p, &key.sk, &seed, "{\"seats\":\"four\",\"data\":\"x\"}", None, None) else { return acc };
+            let mut bad = tok.clone();
+            bad.pop();
+            for route in ["validate_claim", "extend_validation_claims"] {
+                if route == "extend_validation_claims" && *l != Layer::Generic {
+                    continue;
+                }
+                adapter::reset_verdicts();
+                adapter::set_verdict(6, Verdict::Panic);
+                let mut ops: Vec<POp> = vec![POp::Check(adapter::ClaimSpec::auto("data", json!("x")))];
+                ops.push(if route == "validate_claim" { POp::Validate("seats".into(), 6) } else { POp::ExtendValidate(vec![("seats".into(), 6)]) });
+                // 0: the validator panics (the caller's bug); then it is repaired and the same parser is used again
+                ops.extend([POp::Parse(0, 0), POp::SetVerdict(6, Verdict::Accept), POp::Parse(0, 0), POp::Parse(1, 0), POp::SetVerdict(6, Verdict::Panic), POp::Parse(0, 0), POp::SetVerdict(6, Verdict::Reject), POp::Parse(0, 0), POp::Parse(0, 0)]);
+                let ev = adapter::parse_history(*p, *l, *default, &[key.pk.clone()], &[tok.clone(), bad.clone()], &ops);
+                adapter::reset_verdicts();
+                let _ = adapter::take_calls();
+                let parsed: Vec<&PEvent> = ev.iter().filter(|e| matches!(e, PEvent::Parsed(..))).collect();
+                // expected: [user panic, Ok, Err, user panic, Err, Err]
+                let user_panic_at = [0usize, 3];
+                for (i, e) in parsed.iter().enumerate() {
+                    let PEvent::Parsed(o, _) = e else { continue };
+                    acc.executions += 1;
+                    acc.impl_calls += 1;
+                    acc.choice_points += 1;
+                    match o {
+                        Out::Panic(loc) if loc.contains(adapter::USER_VALIDATOR_PANIC) => {
+                            if user_panic_at.contains(&i) {
+                                acc.bump("after-validator-panic:caller-panic-propagated");
+                            } else {
+                                acc.violate(format!("C09|{}/{}|after-validator-panic|stale-user-panic", p.name(), l.name()), format!("parse #{} of the history panicked with the caller's validator panic although the validator no longer panics", i + 1), json!({"kind": "after-validator-panic", "proto": p.name()}));
+                            }
+                        }
+                        Out::Panic(loc) => acc.violate(
+                            format!("C09|{}/{}|after-validator-panic|{}", p.name(), l.name(), adapter::panic_site(loc)),
+                            format!("a parser ({}) whose validator panicked during an earlier parse (caught by the caller) was used again: parse #{} panicked inside the library at {}", route, i + 1, loc),
+                            json!({"kind": "after-validator-panic", "proto": p.name()}),
+                        ),
+                        _ => acc.bump("after-validator-panic:ok-or-err"),
+                    }
+                }
+            }
+            acc
+        });
+        let mut k = Acc::merge_all(accs);
+        k.sample(json!({"family": "k-parser-reused-after-a-validator-panic", "inputs": k.executions}));
+        all.merge(k);
+    }
+
     // ---- family (j): the accepting entry points called from a thread-local destructor while the thread ends
     //      (after the thread has used the library the ordinary way), in a child process
     {
